@@ -20,6 +20,7 @@ func init() {
 		Assumptions: []string{"proto.Clone returns a deep copy; proto.Merge(dst, src) deep-copies from src and writes only dst; fmutils.Filter/Prune and proto.Reset write only their message argument"},
 		Run:         runC07,
 		Controls: []Control{
+			{Name: "first-write-uses-the-callers-message-via-reflection", File: "pkg/resource/opt.go", Old: "\t\t\tdst = value.ProtoReflect().New().Interface()\n", New: "\t\t\tdst = value.ProtoReflect().Interface()\n", Expect: "R07.2"},
 			{Name: "first-write-stores-the-callers-message", File: "pkg/resource/opt.go", Old: "\t\t\tdst = value.ProtoReflect().New().Interface()\n", New: "\t\t\tdst = value\n", Expect: "R07.2"},
 			{Name: "revert-F56-waste-keeps-callers-record", File: "pkg/trait/wastepb/model.go", Old: "append(m.allWasteRecords, proto.Clone(wr).(*traits.WasteRecord))", New: "append(m.allWasteRecords, proto.Message(wr).(*traits.WasteRecord))", Expect: "R07.8"},
 			{Name: "revert-F57-light-preset-into-request", File: "pkg/trait/lightpb/model.go", Old: "b.Preset = proto.Clone(p.LightPreset).(*traits.LightPreset)", New: "b.Preset = proto.Message(p.LightPreset).(*traits.LightPreset)", Expect: "R07.8"},
@@ -306,7 +307,16 @@ func r072(c *an.Ctx) {
 		name := "(pkg/resource.WriteRequest).changeFn$1"
 		returned := false
 		for _, r := range an.Returns(cl) {
-			for _, s := range an.Sources(r.Results[0]) {
+			srcs := an.Sources(r.Results[0])
+			// value.ProtoReflect().Interface() is value itself (only ….New().Interface() is a fresh message)
+			for _, s0 := range append([]ssa.Value(nil), srcs...) {
+				if call, ok := s0.(*ssa.Call); ok && call.Call.IsInvoke() && call.Call.Method.Name() == "Interface" {
+					if inner, ok := call.Call.Value.(*ssa.Call); ok && inner.Call.IsInvoke() && inner.Call.Method.Name() == "ProtoReflect" {
+						srcs = append(srcs, an.Sources(inner.Call.Value)...)
+					}
+				}
+			}
+			for _, s := range srcs {
 				if fv, ok := s.(*ssa.FreeVar); ok && strings.HasSuffix(fv.Type().String(), "proto.Message") {
 					returned = true
 				}
